@@ -110,14 +110,14 @@ func (c *codec) DecodeBody(header *Header, source io.Reader) (body *Body, err er
 			return nil, fmt.Errorf("cannot decode body tracing id: %w", err)
 		}
 	}
-	if header.Flags.Contains(primitive.HeaderFlagCustomPayload) {
-		if body.CustomPayload, err = primitive.ReadBytesMap(source); err != nil {
-			return nil, fmt.Errorf("cannot decode body custom payload: %w", err)
-		}
-	}
 	if header.IsResponse && header.Flags.Contains(primitive.HeaderFlagWarning) {
 		if body.Warnings, err = primitive.ReadStringList(source); err != nil {
 			return nil, fmt.Errorf("cannot decode body warnings: %w", err)
+		}
+	}
+	if header.Flags.Contains(primitive.HeaderFlagCustomPayload) {
+		if body.CustomPayload, err = primitive.ReadBytesMap(source); err != nil {
+			return nil, fmt.Errorf("cannot decode body custom payload: %w", err)
 		}
 	}
 	if decoder, err := c.findMessageCodec(header.OpCode); err != nil {
